@@ -113,11 +113,14 @@ struct Scenario {
   const char *name;
   Plan (*gen)(uint64_t seed, int tier);
   void (*exec)(const Plan &, Run &);
+  bool fork_per_run = false;                  // every run in a child forked from a process that never entered libopus
 };
 void register_scenario(const Scenario &);
 const Scenario *find_scenario(const std::string &prop);
 #define REGISTER_SCENARIO(id, nm, g, e) \
-  static struct Reg_##id { Reg_##id() { register_scenario(Scenario{#id, nm, g, e}); } } reg_##id
+  static struct Reg_##id { Reg_##id() { register_scenario(Scenario{#id, nm, g, e, false}); } } reg_##id
+#define REGISTER_SCENARIO_FORK(id, nm, g, e) \
+  static struct Reg_##id { Reg_##id() { register_scenario(Scenario{#id, nm, g, e, true}); } } reg_##id
 
 // ------------------------------------------------------------------ seams (seams.cc)
 struct AllocCtl {
@@ -131,7 +134,9 @@ struct AllocCtl {
 };
 extern AllocCtl g_alloc;
 void alloc_reset_run();    // free every block still live (after an aborted run) and reset counters
-extern Rng *g_rand_stream; // stream behind __wrap_rand (per logical object)
-extern int g_arch_cap;     // max arch level for objects created now (-1 = host)
+extern __thread Rng *g_rand_stream; // stream behind __wrap_rand (per logical object; per thread under threadsim)
+extern __thread int g_arch_cap;     // max arch level for objects created now (-1 = host)
+void *sim_malloc(size_t n);         // malloc, or the running task's arena under threadsim
+void sim_free(void *p);
 extern long g_arch_calls;
 int host_arch();
